@@ -312,3 +312,45 @@ func vWindowTotal(cb *libcb.CircuitBreaker) uint32 {
 
 func vNowConst() time.Time                 { return time.Time{} }
 func vSinceConst(t time.Time) time.Duration { return 0 }
+
+// verifC10_RetryDeadline: "makes no further attempt once the client's request is cancelled" when
+// the cancellation is the client's DEADLINE passing (the real context package on the engine's
+// virtual clock: context.WithDeadline arms a time.AfterFunc that falls due with the clock). The
+// deadline lies in the first back-off, in a later one, or beyond every attempt; attempts take
+// no time or a moment. No attempt starts after the deadline has passed, and while it has not,
+// every attempt the policy allows is made.
+func verifC10_RetryDeadline() {
+	p := &RetryPolicy{MaxAttempts: 2 + verifChoose("maxAttempts", 2), WaitDuration: "10ms"}
+	if verifBool("exponential") {
+		p.BackOffPolicy = "exponential"
+	}
+	w := p.CreateWrapper()
+	after := []time.Duration{5 * time.Millisecond, 15 * time.Millisecond, time.Hour}[verifChoose("clientDeadlineAfter", 3)]
+	deadline := verifClock() + int64(after)
+	ctx, cancel := context.WithDeadline(context.Background(), vNowClock().Add(after))
+	attempts := 0
+	var start [8]int64
+	handler := func(c context.Context) error {
+		start[attempts] = verifClock()
+		verifAdvance([]int64{0, int64(time.Millisecond)}[verifChoose("attemptTakes", 2)])
+		attempts++
+		return errAttempt
+	}
+	err := w.Wrap(handler)(ctx)
+	verifAssert(err != nil, "failed-request-reports-an-error")
+	for i := 0; i < attempts; i++ {
+		verifAssert(start[i] < deadline, "no-attempt-after-the-clients-deadline")
+	}
+	switch after {
+	case time.Hour:
+		verifAssert(attempts == p.MaxAttempts, "all-attempts-used-before-giving-up")
+	case 5 * time.Millisecond:
+		// the first back-off is 10ms: the deadline passes while the wrapper waits
+		verifAssert(attempts == 1, "gives-up-when-the-deadline-passes-during-a-back-off")
+		verifCover("deadline-passed-during-a-back-off")
+	default:
+		// 15ms: the second attempt (at 10..11ms) is still in time, a third one (at 25ms+) is not
+		verifAssert(attempts == 2, "gives-up-when-the-deadline-passes-during-a-back-off")
+	}
+	cancel()
+}
